@@ -354,7 +354,7 @@ func runWorker(ck *Check, tier universe.Tier, spec, out string, budget time.Dura
 	}
 	runtime.GOMAXPROCS(1)
 	debug.SetPanicOnFault(true)
-	debug.SetGCPercent(400) // the per-execution state reset allocates 512 KB: collect less often
+	debug.SetGCPercent(25) // with the 256 MB ballast below: a collection every ~64 MB of allocation
 	// a never-touched pointer-free ballast keeps the heap goal far above the working set, so that the
 	// background scavenger does not hand freed pages back to the OS after every forced collection
 	// (profiles showed madvise as 40% of a worker's time); it costs address space, not memory
